@@ -1,15 +1,67 @@
 (* C01 — gsync: a Wait channel is never released while the count stayed above zero.
    Property theorems only.  Machines: WGModel.v (current pair-CAS code and, as [_orig], the
-   pinned two-word code); monitors: WGSpec.v; proofs: WGProofs.v / WGRefute.v.            *)
+   pinned two-word code); monitors: WGSpec.v; invariant: WGInv.v; proofs: WGProofs.v,
+   WGRefute.v.  [wg_exec progs sched] runs ANY list of client programs (any number of
+   goroutines, any lengths) under ANY schedule; [tr] is its ghost trace.                     *)
 From Coq Require Import List Arith ZArith Bool.
 From GT Require Import Base.Conc.
-From GT Require Import WGModel WGSpec WGRefute.
+From GT Require Import WGModel WGSpec WGInv WGProofs WGRefute.
 Import ListNotations.
 Local Open Scope Z_scope.
+
+(* the property: for every Wait that returned channel x and every later position where x is
+   observed closed, the conservative lower bound of the count (returned increments + called
+   decrements) was <= 0 at some position since the start of that Wait *)
+Theorem C01 : forall progs sched,
+  well_behaved (tr (wg_exec progs sched)) = true ->
+  c01_ok (tr (wg_exec progs sched)) = true.
+Proof. exact c01_wb. Qed.
+
+(* it holds even without the side condition *)
+Theorem C01_unconditional : forall progs sched, c01_ok (tr (wg_exec progs sched)) = true.
+Proof. exact c01_all. Qed.
+
+(* the same in state form: a closed channel that some Wait returned has its zero_seen mark *)
+Theorem C01_state_form : forall progs sched w x,
+  let cf := wg_exec progs sched in
+  In w (m_ws (mon_of (tr cf))) -> w_ch w = Some x -> In x (closed (sh cf)) -> w_zero w = true.
+Proof. exact c01_state_form. Qed.
+
+(* the lower bound is a lower bound of the real count; the sentinel is installed exactly at
+   count zero and an installed channel is open otherwise *)
+Theorem C01_lb_le_count : forall progs sched,
+  lb_of (tr (wg_exec progs sched)) <= cnt (sh (wg_exec progs sched)).
+Proof. intros. apply lb_le_count. apply Inv_exec. Qed.
+
+Theorem C01_sentinel_iff_zero : forall progs sched,
+  let cf := wg_exec progs sched in
+  (chn (sh cf) = 0%nat <-> cnt (sh cf) = 0) /\
+  (cnt (sh cf) <> 0 -> ~ In (chn (sh cf)) (closed (sh cf))).
+Proof. intros. apply sentinel_iff_zero. apply Inv_exec. Qed.
+
+(* no call panics (close is never applied to a closed channel) *)
+Theorem C01_no_panic : forall progs sched it,
+  In it (tr (wg_exec progs sched)) -> ev_no_panic (it_ev it).
+Proof. exact no_panic. Qed.
+
+(* non-vacuity: a well-behaved execution in which a Wait overlaps a decrement to zero: the
+   waiter obtains channel 1 while T0 is between its load and its CAS, and channel 1 is
+   released by T0's close *)
+Example C01_example :
+  let cf := wg_exec [[CAdd 1; CAdd (-1)]; [CWait]] [0; 0; 0; 1; 0; 0; 1; 0; 0]%nat in
+  well_behaved (tr cf) = true /\ c01_ok (tr cf) = true /\
+  handed_out (tr cf) = [1%nat] /\ closed (sh cf) = [1%nat; 0%nat].
+Proof. vm_compute. repeat split; reflexivity. Qed.
 
 (* the pinned code (before fix C01-paircas) violates the statement: 3 goroutines *)
 Theorem C01_orig_refuted : exists progs sched,
   well_behaved (tr (wgo_exec progs sched)) = true /\ c01_ok (tr (wgo_exec progs sched)) = false.
 Proof. exact c01_orig_refuted. Qed.
 
+Print Assumptions C01.
+Print Assumptions C01_unconditional.
+Print Assumptions C01_state_form.
+Print Assumptions C01_lb_le_count.
+Print Assumptions C01_sentinel_iff_zero.
+Print Assumptions C01_no_panic.
 Print Assumptions C01_orig_refuted.
